@@ -21,6 +21,7 @@ import (
 	"github.com/dgraph-io/badger/v4/fb"
 	"github.com/dgraph-io/badger/v4/options"
 	"github.com/dgraph-io/badger/v4/pb"
+	"github.com/dgraph-io/badger/v4/verifhook"
 	"github.com/dgraph-io/badger/v4/y"
 	"github.com/dgraph-io/ristretto/v2/z"
 )
@@ -490,6 +491,7 @@ func (b *Builder) encrypt(data []byte) ([]byte, error) {
 		return data, y.Wrapf(err, "Error while generating IV in Builder.encrypt")
 	}
 	needSz := len(data) + len(iv)
+	verifhook.EvB("iv.block", b.DataKey().KeyId, iv)
 	dst := b.alloc.Allocate(needSz)
 
 	if err = y.XORBlock(dst[:len(data)], data, b.DataKey().Data, iv); err != nil {
